@@ -392,6 +392,11 @@ var propC12 = &Prop[LayoutCase]{
 		if len(corpusNames) > 0 && rapid.IntRange(0, 3).Draw(t, "corpus") == 0 {
 			c.Corpus = rapid.SampledFrom(corpusNames).Draw(t, "cfile")
 			lines = corpusLines[c.Corpus]
+		} else if rapid.IntRange(0, 3).Draw(t, "wcoff") == 0 {
+			// WCOFF programs bring GLOBAL/EXTERN lists and more bracket directives
+			cc := genCoffCase(t)
+			lines = tokenizeSource(cc.source(true))
+			c.Lines = lines
 		} else {
 			p := genLabelProg(t, rapid.SampledFrom([]int{0, 16, 32}).Draw(t, "mode"), rapid.SampledFrom(orgSet).Draw(t, "org"), true)
 			lines = tokenizeSource(p.Source())
